@@ -94,7 +94,7 @@ func (g *dataGen) obj(typ string, depth int) *Obj {
 		}
 		for _, k := range keys {
 			if !f.Struct && g.pFail > 0 && g.r.Chance(g.pFail) {
-				kind := []string{"err", "err", "safe", "wrapped", "panic", "wrapsafe"}[g.r.Intn(6)]
+				kind := []string{"err", "err", "safe", "wrapped", "panic", "wrapsafe", "custom"}[g.r.Intn(7)]
 				o.Res[k] = &Outcome{Fail: kind, Msg: fmt.Sprintf("E%d.%s", o.ID, k)}
 				continue
 			}
@@ -191,7 +191,7 @@ func InjectFailure(r *vh.Rng, reached []Reached) bool {
 		}
 	}
 	x := pool[r.Intn(len(pool))]
-	kind := []string{"err", "err", "panic", "wrapsafe", "safe", "wrapped"}[r.Intn(6)]
+	kind := []string{"err", "err", "panic", "wrapsafe", "safe", "wrapped", "custom"}[r.Intn(7)]
 	x.Obj.Res[x.Key] = &Outcome{Fail: kind, Msg: fmt.Sprintf("E%d.%s", x.Obj.ID, x.Key)}
 	return true
 }
